@@ -5,7 +5,7 @@ from datetime import datetime, timedelta
 import common
 from common import Outcome, classify_exc
 
-FIELDS = ['id', 'name', 'resource', 'estimate', 'spent', 'start', 'end', 'predecessors', 'successors', 'parent', 'tag', 'Tag', 'nope', 'RESOURCE', 'milestone']
+FIELDS = ['id', 'name', 'resource', 'estimate', 'spent', 'start', 'end', 'predecessors', 'successors', 'parent', 'tag', 'Tag', 'nope', 'RESOURCE', 'milestone', 'children', 'wbs', 'clone']
 NAMES = ['short', None, 'a much longer task name than the rest', 'ünïcödé ✓', '', 'x' * 40, 'with  spaces']
 COLORS = ['94m', '96m', '93m', '95m', '91m', '97m', '92m']
 ANSI = re.compile(r'\x1b\[[^m]*m')
